@@ -175,7 +175,12 @@ void Broker::do_connect(const ConnPtr& c, BConn& b, const ref::Packet& p, int cp
     // messages enqueued before the client id was known
     for (auto& m : out) if (m.session.empty() && m.st == OutMsg::queued) { m.session = b.client_id; s.out.push_back(m.id); }
     ref::Packet ca; ca.type = ref::CONNACK; ca.rc = 0; ca.session_present = present;
-    auto& cp = cfg.caps;
+    Caps cp = cfg.caps;
+    if (accepted_connections < (int)cfg.receive_maximum_script.size()) {
+        int rm = cfg.receive_maximum_script[accepted_connections];
+        if (rm > 0) cp.receive_maximum = (uint16_t)rm; else cp.receive_maximum.reset();
+    }
+    ++accepted_connections;
     if (cfg.session_expiry) ca.props.push_back(pnum(0x11, *cfg.session_expiry));
     if (cp.receive_maximum) ca.props.push_back(pnum(0x21, *cp.receive_maximum));
     if (cp.maximum_qos) ca.props.push_back(pnum(0x24, *cp.maximum_qos));
